@@ -150,7 +150,11 @@ class RefStats(object):
 
 def reference(case, stats=None, buggy_f7=False):
     """Reference interpretation of the documented rules.
-    Entries are (kind, name, depth, path) with kind 'F' frame / 'L' leaf."""
+    Entries are (kind, name, depth, path): kind 'F' frame / 'L' leaf; `path` is the chain of unwrapped ancestors
+    (it defines what is inward of what: the callees of a frame are the following entries inside its parent's
+    subtree); `depth` mirrors the implementation's bookkeeping and is only used to recognise cases where a
+    depth-based extent and the tree-based extent would differ (those are outside the documented rules).
+    Items inserted by an elaborate hook (sequence ending in next_inner) form a sub-stack of their own."""
     UNWRAP = case["unwrap"]
     ELAB = case["elab"]
     FR = "ABCDEFGH"
@@ -177,11 +181,23 @@ def reference(case, stats=None, buggy_f7=False):
             out += unwrap_all(n, depth + 1, me)
         return out
 
+    def remove_callees(q, d, path):
+        k_tree = 0
+        while k_tree < len(q) and q[k_tree][3][:len(path)] == path:
+            k_tree += 1
+        k_depth = 0
+        while k_depth < len(q) and q[k_depth][2] >= d:
+            k_depth += 1
+        if k_tree != k_depth:
+            # the extent depends on how the implementation numbers depths / how eagerly it unwraps: undocumented
+            raise OutOfScope("ambiguous prune extent")
+        del q[:k_tree]
+
     q = unwrap_all(case["root"], 0, ())
     frames = []
     while q:
         if stats is not None:
-            stats.states.add(tuple((e[0], e[1], e[2]) for e in q) + (len(frames),))
+            stats.states.add(tuple((e[0], e[1], len(e[3])) for e in q) + (len(frames),))
         if q[0][0] == "L":
             if any(e[0] == "F" for e in q):
                 raise OutOfScope("leaf before frame")
@@ -197,28 +213,27 @@ def reference(case, stats=None, buggy_f7=False):
             continue
         kind, names = spec
         if kind in ("prune", "emptylist", "replace", "replace1", "replacelist"):
-            # remove the callees: following entries at depth >= d
-            while q and q[0][2] >= d:
-                e = q.pop(0)
-                if not (len(e[3]) >= d and e[3][:d] == path[:d]):
-                    # depth says "callee", tree position says "belongs to a later sibling of an
-                    # ancestor": extent depends on unwrapping eagerness -> undocumented
-                    raise OutOfScope("ambiguous prune extent")
+            remove_callees(q, d, path)
             new = []
             if kind.startswith("replace"):
                 for n in names:
                     if n is None:
                         raise OutOfScope("None in replacement")
-                    new += unwrap_all(n, d, path[:d])
+                    new += unwrap_all(n, d, path)
             q = new + q
         elif kind in ("insert", "insertlist"):
             new = []
+            nid[0] += 1
+            ipath = path + (("inserted", nid[0]),)
+            idepth = 1 + max([d] + [e[2] for e in q])
+            if buggy_f7:
+                idepth = d
+                if q:
+                    q[0] = (q[0][0], q[0][1], d, q[0][3])
             for n in names:
                 if n is None:
                     raise OutOfScope("None in insertion")
-                new += unwrap_all(n, d, path[:d])
-            if q and buggy_f7:
-                q[0] = (q[0][0], q[0][1], d, path[:d])
+                new += unwrap_all(n, idepth, ipath)
             q = new + q
         else:
             raise AssertionError(kind)
